@@ -114,6 +114,36 @@ def run(ctx):
         exp = "ok " + bytes([a & 0xFF, (a >> 8) & 0xFF, a >> 16]).hex()
         if got != exp:
             s2.violate({"fn": "long_low_rom_pointer", "base": hex(b), "p": hex(p)}, exp, got, "not the little-endian 3-byte LoROM address of offset base+p")
+    # one converter object used for a whole pointer table: every result is the address of its own offset, whatever was
+    # converted before (pointers that move back and forth across 32 KiB and 64 KiB boundaries, repeats)
+    for k in range(40 if tier == "quick" else 600):
+        base = rng.choice([0, 0x8000, 0x100000, 0x0F8000, rng.randrange(0x3F0000) & ~0x7FFF, rng.randrange(0x3F0000)])
+        conv = long_low_rom_pointer(base)
+        room = 0x400000 - base
+        ps = []
+        for _ in range(rng.randrange(2, 9)):
+            c = rng.random()
+            if c < 0.4:
+                ps.append(rng.choice([0x0C, 0x7FFF, 0x8000, 0x8001, 0xFFFF, 0x10000, 0x17FFF, 0x18000]) % room)
+            elif c < 0.6 and ps:
+                ps.append(rng.choice(ps))
+            else:
+                ps.append(rng.randrange(min(room, 0x30000)))
+        spec = drv.ask([f"spec.address 0 127 32768 {base + p}" for p in ps])
+        for i, (p, sp) in enumerate(zip(ps, spec)):
+            try:
+                got = "ok " + conv(p).hex()
+            except Exception:  # noqa: BLE001
+                got = "err"
+            a = int(sp)
+            exp = "ok " + bytes([a & 0xFF, (a >> 8) & 0xFF, a >> 16]).hex()
+            s2.cases += 1
+            s2.count("converter-reused")
+            s2.nontrivial.add(("seq", (base + p) // 0x8000 % 2, i))
+            if got != exp:
+                s2.violate({"fn": "long_low_rom_pointer", "base": hex(base), "pointers_in_order_on_one_converter": [hex(x) for x in ps[:i + 1]]}, exp, got,
+                           "a converter that has already produced other pointers does not give the LoROM address of offset base+p")
+                break
     vals = [(0x10000, 0x10, 0x20), (0, 0xFF, 0xFF), (0x100000, 0x00, 0x90), (0, 0, 0x80)]
     for _ in range(1500 if tier == "quick" else 20000):
         vals.append((rng.randrange(-0x1000, 0x400000), rng.randrange(256), rng.randrange(256)))
